@@ -574,11 +574,18 @@ def loads_equal(fn, l1, l2, depth=0):
         if ins.op in ('cmpxchg', 'atomicrmw', 'fence'):
             return False
         if ins.op == 'store':
-            r = fn.ap(ins.ops[1]).root
+            sap = fn.ap(ins.ops[1])
+            r = sap.root
             ri = fn.insts.get(fn.strip(r)) if isinstance(r, str) else None
             fresh = ri is not None and (ri.op == 'alloca' or (ri.op == 'call' and ri.callee in FRESH_ALLOC))
-            if not fresh or fn.strip(r) == lroot:
-                return False
+            if fresh and fn.strip(r) != lroot:
+                continue
+            # a different named member of the very same object (q->top vs q->size): distinct storage
+            lap = fn.ap(l1.ops[0])
+            if sap.fields and lap.fields and isinstance(r, str) and fn.strip(r) == lroot and sap.fields[0] != lap.fields[0] and \
+                    '<anon>' not in sap.fields[0] and '<anon>' not in lap.fields[0] and '|' not in sap.fields[0]:
+                continue
+            return False
     return True
 
 
